@@ -95,3 +95,24 @@ static inline void print_log(FILE *f) {
   size_t n; const SimEvent *e = sim_log(&n);
   for (size_t i = 0; i < n; i++) fprintf(f, "  #%zu step=%u T%u %s obj=%d aux=%d\n", i, e[i].step, (unsigned)e[i].thread, sim_opname(e[i].op), e[i].obj, e[i].aux);
 }
+
+// ---- death callback: when a sanitizer kills the process, leave the spec and the decision trace of
+// the run in flight on stdout so that the supervisor can minimise and replay it -------------------
+extern "C" void __sanitizer_set_death_callback(void (*)(void)) __attribute__((weak));
+static std::string *g_death_spec = nullptr;
+static unsigned long long g_death_run = 0;
+static void death_cb() {
+  if (!g_death_spec) return;
+  size_t tl; const uint32_t *t = sim_trace(&tl);
+  std::string tr = trace_str(t, tl);
+  char head[256];
+  int n = snprintf(head, sizeof head, "\n{\"partial\":%llu,\"steps\":%llu,\"spec\":", g_death_run, (unsigned long long)sim_now());
+  std::string line = std::string(head, (size_t)n) + jstr(*g_death_spec) + ",\"trace\":\"" + tr + "\"}\n";
+  ssize_t w = write(1, line.data(), line.size()); (void)w;
+}
+#include <sys/resource.h>
+static inline void install_death_cb(std::string *spec) {
+  struct rlimit rl = {0, 0}; setrlimit(RLIMIT_CORE, &rl); // never dump a sanitizer-sized core
+  g_death_spec = spec;
+  if (&__sanitizer_set_death_callback) __sanitizer_set_death_callback(death_cb);
+}
